@@ -103,7 +103,7 @@ def run(ck, ctx):
             other = [a for a in prod.args if not _same_mask(pr, a, mask)]
             if len(ms) == 1 and len(other) == 1 and any(
                     (x.op == "Call" and x.extra and x.extra.get("why") == "call-on-object") or
-                    (x.fn is not None and x.fn.qualname == "RadioEFieldParams.__call__") for x in walk([other[0]])):
+                    (x.fn is not None and x.fn.qualname.startswith("RadioEFieldParams.")) for x in walk([other[0]])):
                 ok_zero = True
         ck.ob("R20.2", "outside the range the field is the product with a False mask (exact zero)", ok_zero, root, func,
               g.show(root, 3))
@@ -131,7 +131,7 @@ def run(ck, ctx):
         # final value of the selected events on every configuration path
         conds = {}
         for x in walk([res]):
-            if x.op == "Phi" and x.fn is not None and x.fn.qualname == func:
+            if x.op == "Phi" and x.fn is not None and (x.fn.qualname == func or x.fn.qualname.startswith("EASRadio.")):
                 c = x.args[0]
                 while c.op == "UnaryOp" and c.attr == "Not":
                     c = c.args[0]
